@@ -67,6 +67,7 @@ class FnTr:
             self.params.append((a, ptypes[a]))
         self.extra_params = []
         self.local_types = {}
+        self.skip_locals = set()
         self.aux = []  # auxiliary definitions (loops)
         self.guards = []
         self.ret_type = None
@@ -99,7 +100,7 @@ class FnTr:
         return f"({fn} {fa} {fb})", "F"
 
     def expr(self, n, env):
-        key = ast.unparse(n) if isinstance(n, (ast.Attribute, ast.Subscript, ast.Call, ast.BinOp)) else None
+        key = ast.unparse(n) if isinstance(n, (ast.Attribute, ast.Subscript, ast.Call, ast.BinOp, ast.Compare)) else None
         if key is not None and key in self.consts:
             e, t = self.consts[key]
             return (f"({e} = true)" if t == "B" else e), t
@@ -308,6 +309,9 @@ class FnTr:
             return self.block(rest, env, tail, ind)
         if isinstance(s, ast.Continue):
             return tail(env)
+        if isinstance(s, ast.Assign) and len(s.targets) == 1 and isinstance(s.targets[0], ast.Name) and s.targets[0].id in self.skip_locals:
+            # a vector-valued intermediate that only feeds helpers entering as parameters
+            return self.block(rest, env, tail, ind)
         if isinstance(s, ast.Expr) and isinstance(s.value, ast.Call) and isinstance(s.value.func, ast.Attribute) and s.value.func.attr == "append":
             lst = s.value.func.value.id
             e, t = self.expr(s.value.args[0], env)
@@ -460,7 +464,10 @@ class FnTr:
         def tracking_block(stmts, env, tail, ind):
             if ind == 1 and stmts and isinstance(stmts[0], ast.Assign) and isinstance(stmts[0].targets[0], ast.Name):
                 tg = stmts[0].targets[0]
-                e, t = self.expr(stmts[0].value, env)
+                try:
+                    e, t = self.expr(stmts[0].value, env)
+                except Unsupported:
+                    return orig_block(stmts, env, tail, ind)
                 self._binds.append((self.v(tg.id), f"let {self.v(tg.id)} : {lean_ty(t)} := {e}; "))
             return orig_block(stmts, env, tail, ind)
 
@@ -528,6 +535,19 @@ TARGETS = {
                          "getRange": ("range_", "F"), "lineOfSight": ("los", "B"), "getAzimuth": ("az", "F"),
                          "getElevation": ("el", "F"), "self.el_mask[0]": ("el0", "F"), "self.el_mask[1]": ("el1", "F"),
                          "self.az_mask[0]": ("az0", "F"), "self.az_mask[1]": ("az1", "F")}}),
+            ("Optical.isVisible", "opticalIsVisible",
+             {"self": "-", "tgt_eci_state": "-", "viz_cross_section": "-", "reflectivity": "-", "slant_range_sez": "-"}, 0,
+             {"file": "sensors/optical.py",
+              "skip": ["jd", "sun_eci_position", "boresight_eci", "solar_phase_angle", "target_sun_unit_vector_eci"],
+              "params": [("base_ok", "B"), ("base_reason", "S"), ("flux", "F"), ("vismag", "F"), ("detectable", "F"), ("galactic_ok", "B"),
+                         ("is_space", "B"), ("space_lit", "B"), ("obscured", "B"), ("ground_lit", "B")],
+              "consts": {"super().isVisible": ("(base_ok, base_reason)", ("B", "S")), "calculateIncidentSolarFlux": ("flux", "F"),
+                         "apparentVisualMagnitude": ("vismag", "F"), "self.detectable_vismag": ("detectable", "F"),
+                         "checkGalacticExclusionZone": ("galactic_ok", "B"),
+                         "self.host.agent_type == PlatformLabel.SPACECRAFT": ("is_space", "B"),
+                         "checkSpaceSensorLightingConditions": ("space_lit", "B"),
+                         "checkSpaceSensorEarthLimbObscuration": ("obscured", "B"),
+                         "checkGroundSensorLightingConditions": ("ground_lit", "B")}}),
             ("Radar.isVisible", "radarIsVisible",
              {"self": "-", "tgt_eci_state": "-", "viz_cross_section": "-", "reflectivity": "-", "slant_range_sez": "-"}, 0,
              {"file": "sensors/radar.py",
@@ -637,6 +657,7 @@ def generate(module):
         tr = FnTr(lean_name, fdef, spec["mode"], ptypes, dict(CONSTS, **extra.get("consts", {})), known, fuel)
         tr.extra_params = list(extra.get("params", []))
         tr.local_types = dict(extra.get("locals", {}))
+        tr.skip_locals = set(extra.get("skip", []))
         # a guard `if False: raise` left by the isinstance rewrite is dropped
         fdef.body = [s for s in fdef.body if not (isinstance(s, ast.If) and isinstance(s.test, ast.Constant) and s.test.value is False)]
         chunks.append(tr.translate())
